@@ -118,7 +118,7 @@ def perturbations(tree, combiner):
     fs = SP.fields_of(tree)
     unused = [f for f in H.FIELDS if f not in fs]
     out = []
-    base = {"splitter": tree, "drop": None, "extra": None, "combiner": combiner, "no_split": False}
+    base = {"splitter": tree, "drop": None, "extra": None, "combiner": combiner, "no_split": False, "presplit": None}
     # a field split twice
     for f in fs:
         for name, s in (("outer-right", [tree, f]), ("inner-right", (tree, f)), ("outer-left", [f, tree])):
@@ -126,6 +126,10 @@ def perturbations(tree, combiner):
     # splitter field without a value
     for f in fs:
         out.append(("missing-value", f"no value for {f}", dict(base, drop=f)))
+    # ... also when the TASK OBJECT has a history: it was split over that field before and is split again with
+    # overwrite=True (the old values are still stored on it), or the field holds a value set in the constructor
+    for f in fs:
+        out.append(("missing-value", f"no value for {f} in a re-split (overwrite=True) of a task already split over {f}", dict(base, drop=f, presplit=f)))
     # value for a field not in the splitter
     for g in unused + OTHER_FIELDS + [UNKNOWN]:
         out.append(("extra-value", f"value for {g} which is not in the splitter", dict(base, extra=g)))
@@ -150,6 +154,12 @@ def build_request(req, n=2):
     init.update({k: v for k, v in (("k1", H.K1), ("k2", list(H.K2))) if k not in inputs})
     if req["no_split"]:
         t = H.F(**init)
+    elif req.get("presplit"):
+        from copy import deepcopy
+
+        g = req["presplit"]
+        init.pop(g, None)
+        t = H.F(**init).split(g, **{g: H.values_for(g, n)}).split(deepcopy(tree), overwrite=True, **inputs)
     else:
         from copy import deepcopy
 
@@ -182,7 +192,7 @@ def check_malformed(e2e, kind, desc, req):
 
 
 def check_control(e2e, tree, combiner):
-    req = {"splitter": tree, "drop": None, "extra": None, "combiner": combiner, "no_split": False}
+    req = {"splitter": tree, "drop": None, "extra": None, "combiner": combiner, "no_split": False, "presplit": None}
     r = e2e.run(lambda: build_request(req))
     return r["exc"] is None and r["body_calls"] > 0, r
 
